@@ -33,10 +33,10 @@ func init() {
 
 func init() {
 	props["C13"] = PropDef{Level: "exploration", QuickS: 40, ThoroughS: 600,
-		Units:    []Unit{{Name: "defrag-v4", Pkg: "./props/defrag", Sim: "c13v4", Share: 0.8}, {Name: "defrag-v6", Pkg: "./props/defrag", Sim: "c13v6", Share: 0.2}},
-		Rule:     "one evaluation = one simulated run: 1-4 datagrams over 1-4 (src,dst,id) keys (header 20-60 bytes, payload 9-65515 bytes, cut at seeded multiples of 8), network reordering/duplication/loss, key reuse, a hostile injector (conflicting overlaps, holes, undersized, oversize, >8192 fragments) and DiscardOlderThan timers on the simulated clock; reference model of the received set per key checked at every call; non-trivial = at least one fault fired; distinct = distinct event-log fingerprints among non-trivial runs",
+		Units:    []Unit{{Name: "defrag-v4", Pkg: "./props/defrag", Sim: "c13v4", Share: 0.7}, {Name: "defrag-v6", Pkg: "./props/defrag", Sim: "c13v6", Share: 0.15}, {Name: "defrag-v6-clock", Pkg: "./props/defrag", Sim: "c13v6clock", Share: 0.15}},
+		Rule:     "one evaluation = one simulated run: 1-4 datagrams over 1-4 (src,dst,id) keys (header 20-60 bytes, payload 9-65515 bytes, cut at seeded multiples of 8), network reordering/duplication/loss, key reuse, a hostile injector (conflicting overlaps, holes, undersized, oversize, >8192 fragments) and DiscardOlderThan timers on the simulated clock; reference model of the received set per key checked at every call; unit defrag-v6-clock runs the IPv6 defragmenter inside a synctest bubble (it stamps its lists with time.Now()): fragments, clock advances and DiscardOlderThan with cut-offs behind and ahead of the clock, identifications reused once the model says their list is gone; non-trivial = at least one fault fired; distinct = distinct event-log fingerprints among non-trivial runs",
 		RealStub: "real: ip4defrag.IPv4Defragmenter, ip6defrag.IPv6Defragmenter; stub: fragmenting senders, network, clock",
-		Assume:   []string{"fragments are layers.IPv4 / layers.IPv6Fragment values built field by field with Length consistent with header and payload", "IPv6: one datagram per identification; behaviour after completion is not checked", "the defragmenter may keep references to the fragments it was given (buffers are not reused by the harness)"}}
+		Assume:   []string{"fragments are layers.IPv4 / layers.IPv6Fragment values built field by field with Length consistent with header and payload", "IPv6: one datagram per identification at a time; behaviour after completion is not checked; the count returned by the IPv6 DiscardOlderThan is not checked (completed lists stay until discarded), only what is forgotten", "the defragmenter may keep references to the fragments it was given (buffers are not reused by the harness)"}}
 }
 
 func init() {
@@ -99,21 +99,22 @@ func init() {
 }
 
 var probeNames = map[string][]string{
-	"c02":      {},
-	"c04":      {"two_pooled_packets_live"},
-	"c09":      {"stream_crosses_wrap", "wrap_inside_delivery", "flush_forced_skip", "limit_forced_skip", "syn_overtaken_by_data", "gap_announced", "delivery_without_start", "kept_bytes_presented", "multi_page_with_saved"},
-	"c10":      {"stream_crosses_wrap", "wrap_inside_delivery", "flush_forced_skip", "limit_forced_skip", "syn_overtaken_by_data", "gap_announced", "delivery_without_start"},
-	"c11r":     {"flush_forced_skip", "limit_forced_skip"},
-	"c11t":     {"flush_forced_skip", "limit_forced_skip"},
-	"c12t":     {"preempted_runs", "completed_concurrently", "flush_forced_skip", "stream_created_and_discarded"},
-	"c12r":     {"preempted_runs", "completed_concurrently", "flush_forced_skip", "stream_created_and_discarded"},
-	"c13v4":    {"datagram_reassembled", "datagram_with_options_reassembled", "unfragmented_passthrough", "partial_datagram_discarded", "key_collision_mixed", "hostile_set_reassembled", "8000_fragments_reassembled"},
-	"c13v6":    {"ipv6_reassembled"},
-	"c14pcap":  {"exhaustive_cut_sweep", "libpcap_read_pcap"},
-	"c14ng":    {"exhaustive_cut_sweep", "libpcap_read_pcapng", "interface_with_timestamp_offset", "interface_added_between_packets", "secrets_block_between_packets", "statistics_block_between_packets"},
-	"c15":      {"short_reads_delivered"},
-	"c16":      {"retry_after_transient_error", "cancel_during_read", "zero_copy_nocopy_refused", "three_or_more_packets", "channel_full_backpressure", "cancelled_and_abandoned", "cancelled_while_blocked_on_full_channel", "concatenated_sources", "channel_requested_twice"},
-	"c20":      {"read_to_eof", "closed_early", "closed_between_batches", "closed_inside_a_batch"},
-	"c20asm":   {"read_to_eof", "closed_early", "real_assembler_run"},
-	"c20sweep": {"close_point_sweep", "closed_early", "closed_between_batches", "closed_inside_a_batch"},
+	"c02":        {},
+	"c04":        {"two_pooled_packets_live"},
+	"c09":        {"stream_crosses_wrap", "wrap_inside_delivery", "flush_forced_skip", "limit_forced_skip", "syn_overtaken_by_data", "gap_announced", "delivery_without_start", "kept_bytes_presented", "multi_page_with_saved"},
+	"c10":        {"stream_crosses_wrap", "wrap_inside_delivery", "flush_forced_skip", "limit_forced_skip", "syn_overtaken_by_data", "gap_announced", "delivery_without_start"},
+	"c11r":       {"flush_forced_skip", "limit_forced_skip"},
+	"c11t":       {"flush_forced_skip", "limit_forced_skip"},
+	"c12t":       {"preempted_runs", "completed_concurrently", "flush_forced_skip", "stream_created_and_discarded", "reopened_connection_delivered"},
+	"c12r":       {"preempted_runs", "completed_concurrently", "flush_forced_skip", "stream_created_and_discarded", "reopened_connection_delivered"},
+	"c13v4":      {"datagram_reassembled", "datagram_with_options_reassembled", "unfragmented_passthrough", "partial_datagram_discarded", "key_collision_mixed", "hostile_set_reassembled", "8000_fragments_reassembled"},
+	"c13v6":      {"ipv6_reassembled"},
+	"c13v6clock": {"ipv6_reassembled_on_simulated_clock", "partial_ipv6_datagram_forgotten"},
+	"c14pcap":    {"exhaustive_cut_sweep", "libpcap_read_pcap"},
+	"c14ng":      {"exhaustive_cut_sweep", "libpcap_read_pcapng", "interface_with_timestamp_offset", "interface_added_between_packets", "secrets_block_between_packets", "statistics_block_between_packets"},
+	"c15":        {"short_reads_delivered"},
+	"c16":        {"retry_after_transient_error", "cancel_during_read", "zero_copy_nocopy_refused", "three_or_more_packets", "channel_full_backpressure", "cancelled_and_abandoned", "cancelled_while_blocked_on_full_channel", "concatenated_sources", "channel_requested_twice", "concatenation_read_again_after_its_end", "pooled_decodes_after_the_run"},
+	"c20":        {"read_to_eof", "closed_early", "closed_between_batches", "closed_inside_a_batch", "drained_to_eof"},
+	"c20asm":     {"read_to_eof", "closed_early", "real_assembler_run"},
+	"c20sweep":   {"close_point_sweep", "closed_early", "closed_between_batches", "closed_inside_a_batch"},
 }
